@@ -1,2 +1,9 @@
 /- C16 helper lemmas (umbrella). -/
 import BV.C16.Base58Lemmas
+import BV.C16.Bech32Lemmas
+import BV.C16.ConvertLemmas
+import BV.C16.BechStringLemmas
+import BV.C16.AddressLemmas
+import BV.C16.DecodeLemmas
+import BV.C16.ScriptLemmas
+import BV.C16.ScriptRoundtrip
